@@ -64,6 +64,11 @@ def c20(ctx):
             script = [G.gen_mbp(rng, item["prog"]) for _ in range(rng.randrange(1, 3))] + script + [{"c": "cont"}, {"c": "cont"}, {"c": "cont"}]
         for be in BACKENDS:
             jobs.append((item, script, be, rng.choice([{"maxline": 50}, {"maxline": 50}, {"maxline": 2}])))
+    for prog, script, ps, stackok in G.templates(rng):
+        item = G.make_item(rng, prog, ps, stackok=stackok)
+        for be in BACKENDS:
+            for cfg in ({"maxline": 50}, {"maxline": 2}, {"maxline": 1}):
+                jobs.append((item, script, be, cfg))
     report(ctx, G.judge_jobs(ctx, jobs, "c20"), "C20", "backend-differs-from-reference")
     ctx.assumptions += COMMON_ASSUMPTIONS
     return ("random abstract-ISA programs (hash-chain / push log / loop / stores, 4-byte stores straddling pages, loads, self-patching) "
@@ -85,6 +90,12 @@ def c21(ctx):
                     continue        # the python backend's fault behaviour is C20 / C49's subject (known finding)
                 # cold run, then a second run on the warm translation cache from the same initial state
                 jobs.append((item, [{"c": "run", "s": 0}, {"c": "reset"}, {"c": "run", "s": 0}], be, cfg))
+    for prog, script, ps, stackok in G.templates(rng):
+        item = G.make_item(rng, prog, ps, stackok=stackok)
+        for cfg in CONFIGS:
+            for be in BACKENDS:
+                # cold, then again on the warm cache (watchpoints stay armed across the reset)
+                jobs.append((item, script + [{"c": "reset"}] + [c for c in script if c["c"] != "addmbp"], be, cfg))
     report(ctx, G.judge_jobs(ctx, jobs, "c21"), "C21", "result-depends-on-partitioning-or-caching")
     ctx.assumptions += COMMON_ASSUMPTIONS + ["the executed-instruction sequence is observed through the hash chain and the push log, "
                                              "not per address"]
